@@ -427,7 +427,9 @@ def _value_line_tokenizer(func):
         first_line = True
         for line in v.splitlines(keepends=True):
             assert not _RE_WHITESPACE_LINE.match(v)
-            if line.startswith("#"):
+            # The first line is the rest of the field line ("Field:#value"); only the
+            # lines after it can be comment lines.
+            if not first_line and line.startswith("#"):
                 yield Deb822CommentToken(line)
                 continue
             has_newline = False
